@@ -222,6 +222,78 @@ func ops(quick bool) []seq.Op[*pair] {
 	return o
 }
 
+// opsLarge: a second, small alphabet whose sizes straddle the growth machinery (MinRead = 512, the
+// slide-down at off > cap/2, doubling at 2*cap+n, the 64-byte small-buffer bootstrap): payload bytes
+// differ by position, so stale or misplaced bytes show up in the contents.
+func opsLarge() []seq.Op[*pair] {
+	var o []seq.Op[*pair]
+	add := func(name string, ft func(t *tex.Buffer) string, fb func(b *bytes.Buffer) string) {
+		o = append(o, seq.Op[*pair]{Name: name, Step: func(p *pair) (string, string) {
+			return p.both(name, func() string { return ft(p.t) }, func() string { return fb(p.b) })
+		}})
+	}
+	pay := func(n int, salt byte) string {
+		b := make([]byte, n)
+		for i := range b {
+			b[i] = 'a' + byte((i*7+int(salt))%26)
+		}
+		return string(b)
+	}
+	for i, n := range []int{1, 300, 516, 1010} {
+		pl := pay(n, byte(i))
+		add(fmt.Sprintf("Write(%d bytes)", n), func(t *tex.Buffer) string { k, e := t.Write([]byte(pl)); return fmt.Sprint(k, errStr(e)) }, func(b *bytes.Buffer) string { k, e := b.Write([]byte(pl)); return fmt.Sprint(k, errStr(e)) })
+	}
+	for _, n := range []int{1, 200, 515, 1000} {
+		n := n
+		add(fmt.Sprintf("Next(%d)", n), func(t *tex.Buffer) string { return fmt.Sprintf("%q", t.Next(n)) }, func(b *bytes.Buffer) string { return fmt.Sprintf("%q", b.Next(n)) })
+	}
+	for i, ch := range [][]int{{1}, {20}, {511}, {512}, {513}, {300, 300}, {1010}, {1, 1, 1}} {
+		var chunks []string
+		for j, n := range ch {
+			chunks = append(chunks, strings.ToUpper(pay(n, byte(i+j))))
+		}
+		add(fmt.Sprintf("ReadFrom(chunks %v)", ch), func(t *tex.Buffer) string {
+			n, e := t.ReadFrom(&scriptedReader{chunks: append([]string(nil), chunks...)})
+			return fmt.Sprint(n, errStr(e))
+		}, func(b *bytes.Buffer) string {
+			n, e := b.ReadFrom(&scriptedReader{chunks: append([]string(nil), chunks...)})
+			return fmt.Sprint(n, errStr(e))
+		})
+	}
+	for _, n := range []int{1, 512, 600} {
+		n := n
+		add(fmt.Sprintf("Grow(%d)", n), func(t *tex.Buffer) string { t.Grow(n); return "" }, func(b *bytes.Buffer) string { b.Grow(n); return "" })
+	}
+	add("Read(600)", func(t *tex.Buffer) string {
+		p := make([]byte, 600)
+		k, e := t.Read(p)
+		return fmt.Sprintf("%d %s %q", k, errStr(e), p[:max(k, 0)])
+	}, func(b *bytes.Buffer) string {
+		p := make([]byte, 600)
+		k, e := b.Read(p)
+		return fmt.Sprintf("%d %s %q", k, errStr(e), p[:max(k, 0)])
+	})
+	add("Truncate(Len-1)", func(t *tex.Buffer) string { t.Truncate(t.Len() - 1); return "" }, func(b *bytes.Buffer) string { b.Truncate(b.Len() - 1); return "" })
+	add("Reset", func(t *tex.Buffer) string { t.Reset(); return "" }, func(b *bytes.Buffer) string { b.Reset(); return "" })
+	add("WriteTo(full)", func(t *tex.Buffer) string {
+		w := &scriptedWriter{mode: "full"}
+		n, e := t.WriteTo(w)
+		return fmt.Sprintf("%d %s %q", n, errStr(e), w.got)
+	}, func(b *bytes.Buffer) string {
+		w := &scriptedWriter{mode: "full"}
+		n, e := b.WriteTo(w)
+		return fmt.Sprintf("%d %s %q", n, errStr(e), w.got)
+	})
+	return o
+}
+
+var startsLarge = []start{
+	{"zero", func() *pair { return &pair{t: &tex.Buffer{}, b: &bytes.Buffer{}} }},
+	{"NewSizedBuffer(1028)", func() *pair { return &pair{t: tex.NewSizedBuffer(1028), b: bytes.NewBuffer(make([]byte, 0, 1028))} }},
+	{"NewSizedBuffer(1024)", func() *pair { return &pair{t: tex.NewSizedBuffer(1024), b: bytes.NewBuffer(make([]byte, 0, 1024))} }},
+	{"NewSizedBuffer(600)", func() *pair { return &pair{t: tex.NewSizedBuffer(600), b: bytes.NewBuffer(make([]byte, 0, 600))} }},
+}
+
 func refState(b *bytes.Buffer) string {
 	v := reflect.ValueOf(b).Elem()
 	return fmt.Sprintf("%x/%d/%d", v.FieldByName("buf").Bytes(), v.FieldByName("off").Int(), v.FieldByName("lastRead").Int())
@@ -289,7 +361,7 @@ func rewriteFamily(c *seq.Ctx) {
 
 func main() {
 	r := ev.Start("C11")
-	r.Rule("breadth-first over all operation sequences (alphabet of ~55 calls incl. invalid arguments, scripted readers/writers) applied to tex.Buffer and the toolchain's bytes.Buffer side by side from five constructor start states; states merged only when the complete private state of BOTH buffers (contents incl. consumed prefix, offset, lastRead, capacity) is equal; distinct = distinct (op, observation) pairs")
+	r.Rule("breadth-first over all operation sequences (alphabet of ~55 calls incl. invalid arguments, scripted readers/writers) applied to tex.Buffer and the toolchain's bytes.Buffer side by side from five constructor start states, and over a second alphabet of 24 calls whose sizes straddle the growth machinery (1..1010-byte writes, Next 1..1000, ReadFrom with 1..1010-byte chunkings around MinRead=512, Grow 1/512/600) from zero and 600/1024/1028-byte sized buffers; states merged only when the complete private state of BOTH buffers (contents incl. consumed prefix, offset, lastRead, capacity) is equal; distinct = distinct (op, observation) pairs")
 	r.Assume("bytes.Buffer of the installed toolchain is the reference", "UnreadByte/UnreadRune directly after Grow and Cap() are not compared (property's own exclusion)")
 	depth := r.Pick(4, 5)
 	var jobs []func()
@@ -300,6 +372,15 @@ func main() {
 				return
 			}
 			seq.Explore(r, &seq.Spec[*pair]{Name: "buffer/" + st.name, Ops: ops(r.Quick()), New: st.mk, Key: key, Depth: depth, MaxViolations: 30, Sig: func(path []string, msg string) string { return path[len(path)-1] + " differs from bytes.Buffer" }})
+		})
+	}
+	for _, st := range startsLarge {
+		st := st
+		jobs = append(jobs, func() {
+			if !r.Want("large/" + st.name) {
+				return
+			}
+			seq.Explore(r, &seq.Spec[*pair]{Name: "buffer-large/" + st.name, Ops: opsLarge(), New: st.mk, Key: key, Depth: r.Pick(4, 5), MaxViolations: 30, Sig: func(path []string, msg string) string { return path[len(path)-1] + " differs from bytes.Buffer" }})
 		})
 	}
 	jobs = append(jobs, func() { seq.RunFamily(r, seq.Family{Name: "rewrite+sized", Run: rewriteFamily}) })
